@@ -28,6 +28,8 @@ int main(int argc, char** argv)
 			String s(t.data(), (int)t.size()); int k = 0; const char* end = *s + s.length(); for (String::Enumerator e2 = s.all(); e2; ++e2) { int code = *e2; (void)code; if (e2.u + e2.n > end) { printf("REPRODUCED iteration steps over the terminator (%d bytes + truncated tail)\n", pre); return 1; } k++; }
 			int cnt = s.count(); if (cnt < 0 || cnt > (int)t.size()) { printf("REPRODUCED count() = %d for %d bytes\n", cnt, (int)t.size()); return 1; }
 			String up = s.toUpperCase(), lo = s.toLowerCase(); (void)up; (void)lo; free(ex); free(o32); free(o16); } }
+		// wide-character view of strings of every length 0..70 (ASCII: one unit per byte, the tightest case for the buffer that dataw() reserves)
+		for (int n = 0; n <= 70; n++) { std::string t(n, 'w'); for (int i = 0; i < n; i++) t[i] = char('a' + i % 26); String s(t.c_str()); const wchar_t* w = s; size_t wl = 0; while (w[wl]) wl++; if ((int)wl != n || (n && w[n - 1] != (wchar_t)t[n - 1])) { printf("REPRODUCED wide view of a %d-character string has %d units\n", n, (int)wl); return 1; } }
 		// case: ASCII and Latin-1/Greek/Cyrillic samples, and pairs whose UTF-8 length changes under folding
 		{ struct { const char* a; const char* b; bool eq; } pairs[] = { { "Hello", "hELLO", true }, { "stra\xC3\x9F" "e", "STRA\xC3\x9F" "E", true }, { "\xC3\x89t\xC3\xA9", "\xC3\xA9T\xC3\x89", true }, { "\xCE\xA9mega", "\xCF\x89MEGA", true },
 			{ "\xE2\x84\xAA", "k", true }, { "\xE2\x84\xAA" "elvin", "Kelvin", true }, { "\xC4\xB1", "I", false }, { "abc", "abd", false }, { "abc", "abcd", false }, { "", "", true }, { "\xD0\x96", "\xD0\xB6", true }, { "\xC5\xBF", "S", true } };
